@@ -205,7 +205,7 @@ where
         let ks: Vec<String> = self
             .key_stack
             .iter()
-            .map(|n| format!("\"{}\"", kind(n)))
+            .map(|n| format!("\"{}\"", n.as_ref().map_or("-", kind)))
             .collect();
         let am: Vec<String> = self.anchor_map.keys().map(ToString::to_string).collect();
         format!(
